@@ -48,6 +48,24 @@ theorem jsonl_roundtrip_no_final_newline (ls : List Bytes) (last : Bytes)
   | nil => exact absurd rfl hne
   | cons b bs => simp
 
+/-- The data path of the streaming loader end to end: encode every element on its own line,
+    read the lines back, decode each, apply the step — for ANY codec whose decoder inverts its
+    encoder and whose encoding contains no newline, and ANY step: the result is the fold over
+    the original sequence. -/
+theorem streamed_elements_fold {σ α : Type} (enc : α → Bytes) (dec : Bytes → Option α)
+    (hdec : ∀ x, dec (enc x) = some x) (hnl : ∀ x, nl ∉ enc x)
+    (step : σ → α → σ) (s : σ) (xs : List α) :
+    ((readLines (writeLines (xs.map enc))).filterMap dec).foldl step s = xs.foldl step s := by
+  rw [jsonl_roundtrip (xs.map enc) (by
+    intro l hl
+    obtain ⟨x, _, rfl⟩ := List.mem_map.1 hl
+    exact hnl x)]
+  have : (xs.map enc).filterMap dec = xs := by
+    induction xs with
+    | nil => rfl
+    | cons x xs ih => simp [hdec, ih]
+  rw [this]
+
 /-- The balance phase numbers the accounts in list order (also when an address repeats:
     the later entry shadows the earlier one, whose number stays unused). -/
 theorem balances_numbered_in_order (bs : List Bal) :
@@ -69,6 +87,10 @@ theorem stream_outcome_chunking_independent (g : Genesis) (s : Streamed) (h : St
   have ht : ∀ st, s.txChunks.foldl (fun st c => c.foldl deliverTx st) st = g.txs.foldl deliverTx st := by
     intro st; rw [← fold_chunks, h.2]
   simp only [outcomeStream, Streamed.whole, hb, ht, List.foldl_cons, List.foldl_nil]
+
+example : Streams { balances := [⟨0, []⟩, ⟨1, [(.atom, 1)]⟩, ⟨2, []⟩], txs := [{ kind := .add 0 }, { kind := .inc 0 }] }
+    ⟨[[⟨0, []⟩], [], [⟨1, [(.atom, 1)]⟩, ⟨2, []⟩]], [[], [{ kind := .add 0 }], [{ kind := .inc 0 }]]⟩ := by
+  constructor <;> rfl
 
 /-- Model-level determinism of the streaming path across runs (different buffer refills). -/
 theorem stream_outcome_deterministic (g : Genesis) (s₁ s₂ : Streamed)
